@@ -745,3 +745,397 @@ Definition h_range_proof2 (t : htree) (l r : list bool) : pset2 hterm :=
 Definition h_range2 (t : htree) (first : list bool) (kvs : list (list bool * hterm))
                     (proof : option (pset2 hterm)) : rres :=
   verify_range2 hterm heqb hzero HP HB HA (HC 0) (h_root false t) first kvs proof.
+
+(* ====================================================================================== *)
+(* Range proofs of the legacy core/trie (proof.go: VerifyRangeProof, proofToPath, buildPath,
+   handleBinaryNode, handleEdgeNode, buildTrie, hasRightElement) and the part of the flat trie
+   they run on (trie.go: PutInner, PutWithProof, nodesFromRoot, insertOrUpdateValue,
+   updateValueIfDirty, Hash; node.go: Node.Hash, Node.Update; the serialisation round trip of
+   storage.go). Nodes are stored under their full path. *)
+Section Range1.
+Variable F : Type.
+Variable feq : F -> F -> bool.
+Variable fzero : F -> bool.
+Variable ped : F -> F -> F.
+Variable of_path : list bool -> F.
+Variable add_len : F -> nat -> F.
+Variable f0 : F.
+
+Inductive lres (A : Type) := LOk (a : A) | LErr | LPanic | LFuel.
+Arguments LOk {A}. Arguments LErr {A}. Arguments LPanic {A}. Arguments LFuel {A}.
+Definition lbind {A B} (x : lres A) (f : A -> lres B) : lres B :=
+  match x with LOk a => f a | LErr => LErr | LPanic => LPanic | LFuel => LFuel end.
+Notation "'do' x <- e ; k" := (lbind e (fun x => k)) (at level 200, x pattern, e at level 100, k at level 200).
+
+(* trie.Node: Value, Left, Right (BitArray pointers: None = nil, Some [] = the empty bit array),
+   LeftHash, RightHash *)
+Record lnode := { lv : option F; ll : option (list bool); lr : option (list bool);
+                  llh : option F; lrh : option F }.
+Definition lstore := list (list bool * lnode).
+
+Fixpoint sget (s : lstore) (k : list bool) : option lnode :=
+  match s with
+  | [] => None
+  | (k', n) :: r => if bits_eqb k' k then Some n else sget r k
+  end.
+Fixpoint sput (s : lstore) (k : list bool) (n : lnode) : lstore :=
+  match s with
+  | [] => [(k, n)]
+  | (k', n') :: r => if bits_eqb k' k then (k', n) :: r else (k', n') :: sput r k n
+  end.
+
+Definition is_empty_path (p : option (list bool)) : bool :=
+  match p with Some [] => true | _ => false end.
+Definition opt_feq (a b : option F) : bool :=       (* both non-nil and different => conflict *)
+  match a, b with Some x, Some y => feq x y | _, _ => true end.
+Definition opt_path_ok (a b : option (list bool)) : bool :=
+  match a, b with
+  | Some x, Some y => match x, y with [], _ => true | _, [] => true | _, _ => bits_eqb x y end
+  | _, _ => true
+  end.
+Definition pick_f (o n : option F) : option F := match o with Some _ => o | None => n end.
+Definition pick_p (o n : option (list bool)) : option (list bool) :=
+  match o with Some (_ :: _) => o | _ => n end.
+
+(* Node.Update: merge [o] into [n]; None = conflicting fields *)
+Definition node_update (n o : lnode) : option lnode :=
+  if opt_feq (lv n) (lv o) && opt_path_ok (ll n) (ll o) && opt_path_ok (lr n) (lr o)
+     && opt_feq (llh n) (llh o) && opt_feq (lrh n) (lrh o)
+  then Some {| lv := pick_f (lv o) (lv n); ll := pick_p (ll o) (ll n); lr := pick_p (lr o) (lr n);
+               llh := pick_f (llh o) (llh n); lrh := pick_f (lrh o) (lrh n) |}
+  else None.
+
+(* StorageNodeSet.Put *)
+Definition nset_put (s : lstore) (k : list bool) (n : lnode) : lres lstore :=
+  match sget s k with
+  | Some e => match node_update e n with Some m => LOk (sput s k m) | None => LErr end
+  | None => LOk (s ++ [(k, n)])
+  end.
+
+Definition partial (v : F) : lnode :=     (* NewPartialStorageNode *)
+  {| lv := Some v; ll := Some []; lr := Some []; llh := None; lrh := None |}.
+
+Definition msbs (k : list bool) (n : nat) : list bool := firstn n k.
+
+(* ---------- buildPath / handleBinaryNode / handleEdgeNode ---------- *)
+(* returns (nodes, key of the node built here, leaf value found) *)
+(* the 4th component: the state of the caller's node object when handleBinaryNode completed it *)
+Definition bp_out := (lstore * list bool * option F * option lnode)%type.
+
+Fixpoint build_path (fuel : nat) (ps : pset1 F) (nodes : lstore) (node_hash : F) (key : list bool)
+                    (pos : nat) (cur : option (list bool * lnode)) : lres bp_out :=
+  match fuel with
+  | O => LFuel
+  | S fuel' =>
+      if Nat.eqb pos (length key) then                      (* we reached the leaf *)
+        do nodes' <- nset_put nodes key (partial node_hash);
+        LOk (nodes', key, Some node_hash, None)
+      else
+        match pget F feq ps node_hash with
+        | None => LOk (nodes, [], None, None)               (* non-existent proof node: emptyBitArray, nil, nil *)
+        | Some (PBin lh rh) =>
+            let '(ck, cn) := match cur with Some c => c | None => (msbs key pos, partial node_hash) end in
+            let cn1 := {| lv := lv cn; ll := ll cn; lr := lr cn; llh := Some lh; lrh := Some rh |} in
+            let right := bit_at key pos in
+            do (nodes1, child_key, val, _) <- build_path fuel' ps nodes (if right then rh else lh) key (u8 (pos + 1)) None;
+            let cn2 := if right
+                       then {| lv := lv cn1; ll := ll cn1; lr := Some child_key; llh := llh cn1; lrh := lrh cn1 |}
+                       else {| lv := lv cn1; ll := Some child_key; lr := lr cn1; llh := llh cn1; lrh := lrh cn1 |} in
+            do nodes2 <- nset_put nodes1 ck cn2;
+            LOk (nodes2, ck, val, Some cn2)
+        | Some (PEdge p c) =>
+            if negb (pmatch (skipn pos key) p) then LOk (nodes, [], None, None)
+            else
+              let next := u8 (pos + length p) in
+              let ck := msbs key next in
+              let cn := partial c in
+              if Nat.eqb next (length key) then             (* an edge leaf *)
+                do nodes1 <- nset_put nodes ck cn;
+                LOk (nodes1, ck, Some c, None)
+              else
+                do (nodes1, _, val, obj) <- build_path fuel' ps nodes c key next (Some (ck, cn));
+                (* the object handed down is Put again (completed by handleBinaryNode when the
+                   child was a binary node) *)
+                let cn' := match obj with Some e => e | None => cn end in
+                do nodes2 <- nset_put nodes1 ck cn';
+                LOk (nodes2, ck, val, None)
+        end
+  end.
+
+(* proofToPath *)
+Definition proof_to_path1 (ps : pset1 F) (nodes : lstore) (root : F) (key : list bool)
+  : lres (lstore * list bool * option F) :=
+  do (nodes1, root_key, val, _) <- build_path (S (length key) * S (length ps)) ps nodes root key 0 None;
+  match nodes1 with
+  | [] =>                                                   (* non-existent key at the root *)
+      match pget F feq ps root with
+      | Some (PEdge p c) =>
+          if Nat.eqb (length p) (length key) then
+            do nodes2 <- nset_put nodes1 p (partial c); LOk (nodes2, p, Some c)
+          else match pget F feq ps c with
+               | Some (PBin lh rh) =>
+                   let sn := {| lv := Some c; ll := Some []; lr := Some []; llh := Some lh; lrh := Some rh |} in
+                   do nodes2 <- nset_put nodes1 p sn; LOk (nodes2, p, val)
+               | _ => LErr
+               end
+      | _ => LErr
+      end
+  | _ => LOk (nodes1, root_key, val)
+  end.
+
+(* ---------- the flat trie the verifier rebuilds ---------- *)
+Record ltrie := { ts : lstore; troot : option (list bool); tdirty : list (list bool) }.
+
+(* Storage.Put = WriteTo, ReadStorage.Get = UnmarshalBinary: what comes back. A node written with
+   Left/Right but without hashes is read back with zero (non-nil) hashes. *)
+Definition ser (n : lnode) : lres lnode :=
+  match lv n with
+  | None => LErr                                            (* cannot marshal node with nil value *)
+  | Some _ =>
+      match ll n with
+      | None => match llh n, lrh n with
+                | None, None => LOk {| lv := lv n; ll := None; lr := None; llh := None; lrh := None |}
+                | _, _ => LErr
+                end
+      | Some _ =>
+          match lr n with
+          | None => LPanic
+          | Some _ =>
+              match llh n, lrh n with
+              | None, None => LOk {| lv := lv n; ll := ll n; lr := lr n; llh := Some f0; lrh := Some f0 |}
+              | Some _, Some _ => LOk n
+              | _, _ => LErr                                (* cannot store only one lefthash or righthash *)
+              end
+          end
+      end
+  end.
+Definition tput (s : lstore) (k : list bool) (n : lnode) : lres lstore :=
+  do n' <- ser n; LOk (sput s k n').
+
+(* Node.Hash(path) *)
+Definition nhash (n : lnode) (p : list bool) : lres F :=
+  match lv n with
+  | None => LPanic
+  | Some v => LOk (match p with [] => v | _ => add_len (ped v (of_path p)) (length p) end)
+  end.
+(* path(key, parentKey) with a non-nil parent *)
+Definition rel_path (key parent : list bool) : list bool := skipn (S (length parent)) key.
+
+Fixpoint common_msbs (x y : list bool) : list bool :=
+  match x, y with
+  | a :: x', b :: y' => if Bool.eqb a b then a :: common_msbs x' y' else []
+  | _, _ => []
+  end.
+
+Fixpoint nodes_from_root (fuel : nat) (s : lstore) (cur : option (list bool)) (key : list bool)
+                         (acc : list (list bool * lnode)) : lres (list (list bool * lnode)) :=
+  match fuel with
+  | O => LFuel
+  | S fuel' =>
+      match cur with
+      | None => LOk acc
+      | Some c =>
+          if negb (match acc with [] => true | _ => false end) && Nat.eqb (length c) 0 then LOk acc
+          else match sget s c with
+               | None => LErr
+               | Some n =>
+                   let acc' := acc ++ [(c, n)] in
+                   if (length key <=? length c) || negb (pmatch key c) then LOk acc'
+                   else nodes_from_root fuel' s (if bit_at key (length c) then lr n else ll n) key acc'
+               end
+      end
+  end.
+
+Definition path_is (p : option (list bool)) (k : list bool) : bool :=
+  match p with Some q => bits_eqb q k | None => false end.
+
+Definition insert_or_update (t : ltrie) (node_key : list bool) (node : lnode)
+    (nodes : list (list bool * lnode)) (sib_key : list bool) (sib : lnode) (is_proof : bool) : lres ltrie :=
+  let ck := common_msbs node_key sib_key in
+  let right := bit_at node_key (length ck) in
+  do t1 <-
+    (if is_proof then
+       match sget (ts t) ck with
+       | None => LErr
+       | Some np =>
+           do h <- nhash node node_key;
+           let np' := if right
+                      then {| lv := lv np; ll := ll np; lr := Some node_key; llh := llh np; lrh := Some h |}
+                      else {| lv := lv np; ll := Some node_key; lr := lr np; llh := Some h; lrh := lrh np |} in
+           do s1 <- tput (ts t) ck np';
+           LOk {| ts := s1; troot := troot t; tdirty := tdirty t ++ [ck] |}
+       end
+     else
+       let '(lk, rk, lc, rc) := if right then (sib_key, node_key, sib, node) else (node_key, sib_key, node, sib) in
+       do lh <- nhash lc (rel_path lk ck);
+       do rh <- nhash rc (rel_path rk ck);
+       let np := {| lv := Some (ped lh rh); ll := Some lk; lr := Some rk; llh := None; lrh := None |} in
+       do s1 <- tput (ts t) ck np;
+       match rev nodes with
+       | _ :: (spk, spn) :: _ =>                              (* the sibling has a parent *)
+           let spn' := if path_is (ll spn) sib_key
+                       then {| lv := lv spn; ll := Some ck; lr := lr spn; llh := llh spn; lrh := lrh spn |}
+                       else {| lv := lv spn; ll := ll spn; lr := Some ck; llh := llh spn; lrh := lrh spn |} in
+           do s2 <- tput s1 spk spn';
+           LOk {| ts := s2; troot := troot t; tdirty := tdirty t ++ [ck] |}
+       | _ => LOk {| ts := s1; troot := Some ck; tdirty := tdirty t |}
+       end);
+  do s3 <- tput (ts t1) node_key node;
+  LOk {| ts := s3; troot := troot t1; tdirty := tdirty t1 |}.
+
+Fixpoint find_proof (proof : lstore) (k : list bool) : option lnode :=
+  match proof with
+  | [] => None
+  | (k', n) :: r => if bits_eqb k' k then Some n else find_proof r k
+  end.
+
+(* PutWithProof (values are non-zero here) *)
+Definition put_with_proof (t : ltrie) (key : list bool) (v : F) (proof : lstore) : lres ltrie :=
+  let node := {| lv := Some v; ll := None; lr := None; llh := None; lrh := None |} in
+  match sget (ts t) key with
+  | Some _ =>                                               (* updateLeaf: an existing leaf *)
+      do s1 <- tput (ts t) key node;
+      LOk {| ts := s1; troot := troot t; tdirty := tdirty t ++ [key] |}
+  | None =>
+      do nodes <- nodes_from_root (S (S (length key))) (ts t) (troot t) key [];
+      match rev nodes with
+      | [] => do s1 <- tput (ts t) key node;                (* handleEmptyTrie *)
+              LOk {| ts := s1; troot := Some key; tdirty := tdirty t |}
+      | (sk, sn) :: _ =>
+          if bits_eqb sk key then LErr                      (* deleteExistingKey: not reachable *)
+          else match find_proof proof sk with
+               | Some pn => insert_or_update t key node nodes sk pn true
+               | None => insert_or_update t key node nodes sk sn false
+               end
+      end
+  end.
+
+Fixpoint update_value_if_dirty (fuel : nat) (height : nat) (dirty : list (list bool)) (s : lstore)
+                               (key : list bool) : lres (lstore * lnode) :=
+  match fuel with
+  | O => LFuel
+  | S fuel' =>
+      match sget s key with
+      | None => LErr
+      | Some node =>
+          if Nat.eqb (length key) height then LOk (s, node)
+          else
+            match ll node, lr node with
+            | Some l, Some r =>
+                let le := match l with [] => true | _ => false end in
+                let re := match r with [] => true | _ => false end in
+                let should :=
+                  if le && re then false
+                  else if le || re then true
+                  else existsb (fun d => (length key <? length d) && pmatch key d) dirty in
+                if negb should then LOk (s, node)
+                else
+                  do (s1, lh) <-
+                    (if le then match llh node with Some h => LOk (s, h) | None => LPanic end
+                     else do (s', c) <- update_value_if_dirty fuel' height dirty s l;
+                          do h <- nhash c (rel_path l key); LOk (s', h));
+                  do (s2, rh) <-
+                    (if re then match lrh node with Some h => LOk (s1, h) | None => LPanic end
+                     else do (s', c) <- update_value_if_dirty fuel' height dirty s1 r;
+                          do h <- nhash c (rel_path r key); LOk (s', h));
+                  let node' := {| lv := Some (ped lh rh); ll := ll node; lr := lr node; llh := llh node; lrh := lrh node |} in
+                  do s3 <- tput s2 key node';
+                  LOk (s3, node')
+            | _, _ => LPanic                                (* nil Left/Right above leaf depth *)
+            end
+      end
+  end.
+
+(* Trie.Hash *)
+Definition ltrie_hash (height : nat) (t : ltrie) : lres F :=
+  match troot t with
+  | None => LOk f0
+  | Some rk =>
+      do (s, root) <- update_value_if_dirty (S (S height)) height (tdirty t) (ts t) rk;
+      nhash root rk
+  end.
+
+Fixpoint put_all (t : ltrie) (kvs : list (list bool * F)) (proof : lstore) : lres ltrie :=
+  match kvs with
+  | [] => LOk t
+  | (k, v) :: r => do t' <- put_with_proof t k v proof; put_all t' r proof
+  end.
+Fixpoint put_inner_all (s : lstore) (nodes : lstore) : lres lstore :=
+  match nodes with
+  | [] => LOk s
+  | (k, n) :: r => do s' <- tput s k n; put_inner_all s' r
+  end.
+
+(* buildTrie + Hash *)
+Definition build_trie_root (height : nat) (root_key : option (list bool)) (nodes : lstore)
+                           (kvs : list (list bool * F)) : lres F :=
+  do s0 <- put_inner_all [] (rev nodes);
+  do t <- put_all {| ts := s0; troot := root_key; tdirty := [] |} kvs nodes;
+  ltrie_hash height t.
+
+(* hasRightElement(rootKey, key, nodes) *)
+Fixpoint has_right1 (fuel : nat) (nodes : lstore) (cur : option (list bool)) (key : list bool) : bool :=
+  match fuel with
+  | O => false
+  | S fuel' =>
+      match cur with
+      | None => false
+      | Some [] => false                                    (* cur.Equal(emptyBitArray) *)
+      | Some c =>
+          match sget nodes c with
+          | None => false
+          | Some sn =>
+              if bits_eqb key c then false
+              else let is_left := negb (bit_at key (length c)) in
+                   if is_left && (match lrh sn with Some _ => true | None => false end) then true
+                   else has_right1 fuel' nodes (if is_left then ll sn else lr sn) key
+          end
+      end
+  end.
+
+Definition of_lres (x : lres rres) : rres :=
+  match x with LOk r => r | LErr => RErr | LPanic => RPanic | LFuel => RFuel end.
+
+Definition verify_range1 (height : nat) (root : F) (first : list bool) (kvs : list (list bool * F))
+                         (proof : option (pset1 F)) : rres :=
+  if negb (proof_data_ok F fzero kvs) then RErr else
+  of_lres
+  match proof with
+  | None =>
+      do h <- build_trie_root height None [] kvs;
+      LOk (if feq h root then ROk false else RErr)
+  | Some ps =>
+      match kvs with
+      | [] =>
+          do (nodes, rk, val) <- proof_to_path1 ps [] root first;
+          LOk (match val with
+               | Some _ => RErr
+               | None => if has_right1 (S (S height)) nodes (Some rk) first then RErr else ROk false
+               end)
+      | (k0, v0) :: rest =>
+          let last := fst (List.last kvs (k0, v0)) in
+          if (match rest with [] => true | _ => false end) && bits_eqb first last then
+            do (nodes, rk, val) <- proof_to_path1 ps [] root first;
+            LOk (match val with
+                 | Some v => if feq v0 v then ROk (has_right1 (S (S height)) nodes (Some rk) first) else RErr
+                 | None => RErr
+                 end)
+          else if negb (is_gt (bcmp last first)) then LOk RErr
+          else
+            do (nodes1, rk, _) <- proof_to_path1 ps [] root first;
+            do (nodes2, rk2, _) <- proof_to_path1 ps nodes1 root last;
+            if negb (bits_eqb rk rk2) then LOk RErr
+            else
+              do h <- build_trie_root height (Some rk) nodes2 kvs;
+              LOk (if feq h root then ROk (has_right1 (S (S height)) nodes2 (Some rk) last) else RErr)
+      end
+  end.
+
+End Range1.
+
+Definition h_range_proof1 (t : htree) (l r : list bool) : pset1 hterm :=
+  let s := set_of1 hterm heqb HP HB HA (h_prove1 false t l) in
+  if bits_eqb l r then s else add1 hterm heqb HP HB HA s (h_prove1 false t r).
+Definition h_range1 (height : nat) (t : htree) (first : list bool) (kvs : list (list bool * hterm))
+                    (proof : option (pset1 hterm)) : rres :=
+  verify_range1 hterm heqb hzero HP HB HA (HC 0) height (h_root false t) first kvs proof.
